@@ -11,6 +11,7 @@ import (
 	"os"
 	"reflect"
 	"runtime/metrics"
+	"sync"
 	"sync/atomic"
 	"time"
 
@@ -29,6 +30,12 @@ var none = V{"k": "NONE"}
 type State struct {
 	Pk    map[int]any // rtcp.Packet or []rtcp.Packet
 	Buf   map[int][]byte
+	// spare[h]: spare-capacity regions behind the byte slices of the packet built
+	// under h; in[h]/orig[h]: the buffer the packet under h was decoded from (the
+	// library may alias it) and a pristine copy
+	spare map[int][][]byte
+	in    map[int][]byte
+	orig  map[int][]byte
 	W     io.Writer
 	N     int // events written
 	Quiet bool
@@ -39,7 +46,7 @@ type State struct {
 }
 
 func New(w io.Writer) *State {
-	s := &State{Pk: map[int]any{}, Buf: map[int][]byte{}, W: w}
+	s := &State{Pk: map[int]any{}, Buf: map[int][]byte{}, W: w, spare: map[int][][]byte{}, in: map[int][]byte{}, orig: map[int][]byte{}}
 	s.enc = json.NewEncoder(w)
 	return s
 }
@@ -73,14 +80,42 @@ func BuildAny(v any) any {
 	return abs.Build(v)
 }
 
+var buildMu sync.Mutex
+
+// memTouched reports whether memory the caller owns around the packet under h
+// was written: spare capacity behind its byte slices, or the buffer it was
+// decoded from.
+func (s *State) memSame(h int) bool {
+	for _, sp := range s.spare[h] {
+		for _, b := range sp {
+			if b != abs.SpareFill {
+				return false
+			}
+		}
+	}
+	if in, ok := s.in[h]; ok && !bytes.Equal(in, s.orig[h]) {
+		return false
+	}
+	return true
+}
+
 func (s *State) Reset() V {
 	s.Pk = map[int]any{}
 	s.Buf = map[int][]byte{}
+	s.spare = map[int][][]byte{}
+	s.in = map[int][]byte{}
+	s.orig = map[int][]byte{}
 	return s.emit(V{"op": "reset", "h": 0})
 }
 
 func (s *State) Build(h int, v any) V {
+	buildMu.Lock()
+	abs.Spare = [][]byte{}
 	s.Pk[h] = BuildAny(v)
+	s.spare[h] = abs.Spare
+	abs.Spare = nil
+	buildMu.Unlock()
+	delete(s.in, h)
 	return s.emit(V{"op": "build", "h": h, "v": v})
 }
 
@@ -182,7 +217,7 @@ func (s *State) Marshal(h int) V {
 		}
 	})
 	ok := !pan && err == nil
-	ev := V{"op": "marshal", "h": h, "ok": ok, "out": L{}, "panic": pan, "post": post(before, x)}
+	ev := V{"op": "marshal", "h": h, "ok": ok, "out": L{}, "panic": pan, "post": post(before, x), "memsame": s.memSame(h)}
 	if ok {
 		s.Buf[h] = append([]byte(nil), out...)
 		ev["out"] = abs.Bytes(out)
@@ -212,7 +247,7 @@ func (s *State) Size(h int) V {
 	if pan {
 		n = -2
 	}
-	return s.emit(V{"op": "size", "h": h, "out": n, "post": post(before, x)})
+	return s.emit(V{"op": "size", "h": h, "out": n, "post": post(before, x), "memsame": s.memSame(h)})
 }
 
 func (s *State) Dest(h int) V {
@@ -231,7 +266,7 @@ func (s *State) Dest(h int) V {
 	if pan {
 		out = L{L{-2}}
 	}
-	return s.emit(V{"op": "dest", "h": h, "out": out, "post": post(before, x)})
+	return s.emit(V{"op": "dest", "h": h, "out": out, "post": post(before, x), "memsame": s.memSame(h)})
 }
 
 type headerer interface{ Header() rtcp.Header }
@@ -275,7 +310,7 @@ func (s *State) String(h int) V {
 		}
 	})
 	sum := sha256.Sum256([]byte(txt))
-	ev := V{"op": "string", "h": h, "panic": pan, "out": abs.Bytes(sum[:6]), "post": post(before, x), "n": len(txt)}
+	ev := V{"op": "string", "h": h, "panic": pan, "out": abs.Bytes(sum[:6]), "post": post(before, x), "n": len(txt), "memsame": s.memSame(h)}
 	if pan {
 		ev["msg"] = msg
 	}
@@ -357,11 +392,14 @@ func (s *State) UnmarshalFull(entry string, b, h, dh, eqh, eqb int) V {
 	pan, msg := guardedDecode(func() string { return fmt.Sprintf("unmarshal %s %v", entry, orig) }, func() { err = p.Unmarshal(in) })
 	alloc := s.allocNow() - a0
 	var out any = none
+	delete(s.spare, h)
 	if !pan && err == nil {
 		out = abs.Abs(p)
 		s.Pk[h] = p
+		s.in[h], s.orig[h] = in, append([]byte(nil), in...)
 	} else {
 		delete(s.Pk, h)
+		delete(s.in, h)
 	}
 	ev := decodeEvent("unmarshal", entry, b, h, in, orig, pan, msg, err, alloc, out)
 	ev["dh"] = dh
@@ -386,10 +424,13 @@ func (s *State) DatagramParts(b, h int, parts []int) V {
 	if !pan {
 		out = abs.AbsList(ps)
 	}
+	delete(s.spare, h)
 	if !pan && err == nil {
 		s.Pk[h] = ps
+		s.in[h], s.orig[h] = in, append([]byte(nil), in...)
 	} else {
 		delete(s.Pk, h)
+		delete(s.in, h)
 	}
 	ev := decodeEvent("datagram", "DGRAM", b, h, in, orig, pan, msg, err, alloc, out)
 	pl := make(L, len(parts))
